@@ -565,4 +565,61 @@ theorem closeDrain_refused (mode : Mode) : ∀ (count : Nat) (st : St) (av : Byt
       simp only [Bool.false_eq_true, if_false]
       omega
 
+/-! ### termination of `goto next_frame` -/
+
+/-- `afterHdrD` depends on the fuel only through the `goto next_frame` of a frame without data -/
+theorem afterHdrD_congr (mode : Mode) (datalen f g : Nat) (st : St) (b0 b1 : UInt8) (r' av : Bytes)
+    (h : hExtra b1.toNat < r'.length →
+      readFrame mode datalen f { hdrSt st b1 r' with rdHeader := r'.drop (hExtra b1.toNat), allHdrIn := false } av =
+      readFrame mode datalen g { hdrSt st b1 r' with rdHeader := r'.drop (hExtra b1.toNat), allHdrIn := false } av) :
+    afterHdrD mode datalen f st b0 b1 r' av = afterHdrD mode datalen g st b0 b1 r' av := by
+  unfold afterHdrD
+  by_cases c1 : mode = .server ∧ ¬ b1.toNat / 128 = 1
+  · rw [if_pos c1, if_pos c1]
+  rw [if_neg c1, if_neg c1]
+  by_cases c2 : r'.length < hExtra b1.toNat
+  · rw [if_pos c2, if_pos c2]
+  rw [if_neg c2, if_neg c2]
+  by_cases c3 : b0.toNat % 16 ≠ 2
+  · rw [if_pos c3, if_pos c3]
+  rw [if_neg c3, if_neg c3]
+  by_cases c4 : hSize b1.toNat r' > datalen
+  · rw [if_pos c4, if_pos c4]
+  rw [if_neg c4, if_neg c4]
+  by_cases c5 : hSize b1.toNat r' = 0
+  · rw [if_pos c5, if_pos c5]
+    by_cases c6 : (r'.drop (hExtra b1.toNat)).length > 0
+    · rw [if_pos c6, if_pos c6]
+      exact h (by simp only [List.length_drop] at c6; omega)
+    · rw [if_neg c6, if_neg c6]
+  · rw [if_neg c5, if_neg c5]
+
+/-- the `goto next_frame` loop of one `coap_ws_read` call terminates: every round takes at least the two fixed header
+bytes out of `rd_header` ++ the bytes at hand, so any fuel above their number gives the same result — the model's fuel
+(`av.length + 16`) never runs out for a state with `hdr_ofs ≤ 14` -/
+theorem readFrame_fuel (mode : Mode) (datalen : Nat) : ∀ (f g : Nat) (st : St) (av : Bytes),
+    st.rdHeader.length + av.length < f → st.rdHeader.length + av.length < g →
+    readFrame mode datalen f st av = readFrame mode datalen g st av := by
+  intro f
+  induction f with
+  | zero => intro g st av h; omega
+  | succ f ih =>
+    intro g st av hf hg
+    obtain ⟨g, rfl⟩ : ∃ g', g = g' + 1 := ⟨g - 1, by omega⟩
+    cases ha : st.allHdrIn with
+    | true => rw [readFrame_dataD _ _ _ _ _ ha, readFrame_dataD _ _ _ _ _ ha]
+    | false =>
+      match hh : st.rdHeader ++ av.take (fsCap - st.rdHeader.length) with
+      | [] => rw [readFrame_shortD _ _ _ _ _ ha (by rw [hh]; simp), readFrame_shortD _ _ _ _ _ ha (by rw [hh]; simp)]
+      | [b] => rw [readFrame_shortD _ _ _ _ _ ha (by rw [hh]; simp), readFrame_shortD _ _ _ _ _ ha (by rw [hh]; simp)]
+      | b0 :: b1 :: r' =>
+        rw [readFrame_hdrD _ _ _ _ _ b0 b1 r' ha hh, readFrame_hdrD _ _ _ _ _ b0 b1 r' ha hh]
+        apply afterHdrD_congr
+        intro hx
+        have hl : (st.rdHeader ++ av.take (fsCap - st.rdHeader.length)).length = r'.length + 2 := by rw [hh]; rfl
+        simp only [List.length_append, List.length_take] at hl
+        apply ih
+        · simp only [List.length_drop]; omega
+        · simp only [List.length_drop]; omega
+
 end Coap
